@@ -270,6 +270,7 @@ class Source:
             })
         body = [s for s in fn.body if not (isinstance(s, ast.Expr) and isinstance(s.value, ast.Constant))]
         subgraphs: dict[str, str] = {}  # local -> callback parameter
+        opaque_locals: set[str] = set()
         for s in body[:-1]:
             tgt = val = None
             if isinstance(s, ast.AnnAssign) and isinstance(s.target, ast.Name):
@@ -281,6 +282,11 @@ class Source:
                 and len(val.args) == 2 and isinstance(val.args[1], ast.Name)
             ):
                 subgraphs[tgt] = val.args[1].id
+            elif tgt:
+                # some other local: harmless unless the node call is wired to it (flagged there)
+                opaque_locals.add(tgt)
+            elif isinstance(s, ast.If) and all(isinstance(x, ast.Raise) for x in s.body) and not s.orelse:
+                pass  # argument validation
             else:
                 sig["problems"].append(f"{name}: unclassified statement {ast.unparse(s)[:60]}")
         if not body or not isinstance(body[-1], ast.Return) or body[-1].value is None:
@@ -345,7 +351,7 @@ class Source:
                     continue
                 v = kw.value
                 if want == "Inputs":
-                    if isinstance(v, ast.Name):
+                    if isinstance(v, ast.Name) and v.id not in opaque_locals and v.id not in subgraphs:
                         sig["inputWires"].append((kw.arg, v.id))
                     else:
                         sig["problems"].append(f"{name}: input {kw.arg} wired to expression {ast.unparse(v)[:40]}")
@@ -365,7 +371,9 @@ class Source:
                     nm = names[0].value if names else (pos[1] if len(pos) > 1 else None)
                     if isinstance(nm, ast.Constant) and isinstance(nm.value, str):
                         wire["onnxName"] = nm.value
-                    if isinstance(src, ast.Name):
+                    if isinstance(src, ast.Name) and src.id in opaque_locals:
+                        sig["problems"].append(f"{name}: attribute {kw.arg} built from local {src.id} (not a parameter)")
+                    elif isinstance(src, ast.Name):
                         if src.id in subgraphs:
                             wire["param"], wire["viaSubgraph"] = subgraphs[src.id], True
                             local_to_attr[src.id] = kw.arg
@@ -619,9 +627,11 @@ def generate(write: bool = True) -> dict:
             entry = f"({lean_str(cls_id)}, {ctor_ref}, {op_schema_ref.get(op, MISSING_SCHEMA)})"
             thm = f"conforms_{mid}_{lean_ident(op)}"
             exc = exceptions.get((mid, op))
+            sref = op_schema_ref.get(op, "")
             info["pairs"].append({
                 "module": mid, "op": op, "class": cls_id, "ctor": f"{fn[0]}.{fn[1]}" if fn else None,
                 "theorem": thm, "except": exc,
+                "schema": sref[len("Generated.Schemas."):] if sref.startswith("Generated.Schemas.") else None,
             })
             stmt = (
                 f"entryOKExcept {lean_list(lean_str(x) for x in exc)} {entry} = true" if exc
